@@ -76,7 +76,9 @@ func (g *concurrentCheckgroup) startConsumer() {
 			)
 
 			defer g.cancel()
-			defer func() { vhook.Emit("cg.exit", g, g.result.Membership, g.result.Err != nil, totalChecks, finishedChecks) }()
+			defer func() {
+				vhook.Emit("cg.exit", g, g.result.Membership, g.result.Err != nil, totalChecks, finishedChecks)
+			}()
 
 			// Closing the doneCh will signal that the result is ready.
 			defer close(g.doneCh)
